@@ -488,6 +488,7 @@ func ruleCorridor(w *World, r *Report) {
 	if n == 0 {
 		r.add("INCLUDES", fn+" / results", pos, Undecided, "no success return")
 	}
+	ruleVerdictOverwrite(w, r, f, fn, isLine)
 	if cand == nil {
 		// without the candidate list the filter rules have nothing to compare with
 		r.add("FILTER-SUBSET", fn+" / skipped mode", pos, Undecided, "the candidate list was not recognised")
@@ -1694,6 +1695,82 @@ func listVariants(w *World, v ssa.Value, depth int) [][]ssa.Value {
 
 // isAccumulatorPhi: the phi is a loop-carried list: one of its edges is an
 // append chain that starts from the phi itself.
+// ruleVerdictOverwrite: a membership table (map keyed by ID) that is seeded with the line's
+// IDs and then assigned a non-constant verdict for every element of the neighbourhood box.
+// The box around the line contains voxels of the line itself (each is a neighbour of the
+// next), so without a test of the existing entry the seeded "in" is overwritten by the
+// measured verdict and a line voxel can drop out of the result.
+func ruleVerdictOverwrite(w *World, r *Report, f *ssa.Function, fn string, isLine func(ssa.Value) bool) {
+	var box ssa.Value
+	instrs(f, func(in ssa.Instruction) {
+		c, ok := in.(*ssa.Call)
+		if ok && calleeIs(c, modPath+"/operated", "GetNspatialIdsAroundVoxcels") && len(c.Call.Args) > 0 && isLine(c.Call.Args[0]) {
+			if ex := extractOf(c, 0); ex != nil {
+				box = ex
+			}
+		}
+	})
+	if box == nil {
+		return
+	}
+	elemOf := func(list func(ssa.Value) bool, v ssa.Value) bool {
+		for _, sr := range findSliceRanges(f) {
+			if list(sr.X) && sr.isElem(resolve(v)) {
+				return true
+			}
+		}
+		return false
+	}
+	isBox := func(v ssa.Value) bool { return resolve(v) == box }
+	type upd struct {
+		mu *ssa.MapUpdate
+	}
+	seeded := map[ssa.Value]bool{}
+	var verdicts []*ssa.MapUpdate
+	instrs(f, func(in ssa.Instruction) {
+		mu, ok := in.(*ssa.MapUpdate)
+		if !ok {
+			return
+		}
+		if elemOf(isLine, mu.Key) {
+			seeded[resolve(mu.Map)] = true
+		}
+		if elemOf(isBox, mu.Key) {
+			if _, isConst := resolve(mu.Value).(*ssa.Const); !isConst {
+				verdicts = append(verdicts, mu)
+			}
+		}
+	})
+	n := 0
+	for _, mu := range verdicts {
+		m := resolve(mu.Map)
+		if !seeded[m] {
+			continue
+		}
+		// a test of the existing entry (or of any map) under the same key in front of the update
+		guarded := false
+		instrs(f, func(in ssa.Instruction) {
+			lk, ok := in.(*ssa.Lookup)
+			if !ok || !isMapType(lk.X.Type()) {
+				return
+			}
+			if resolve(lk.Index) == resolve(mu.Key) && (lk.Block() == mu.Block() || lk.Block().Dominates(mu.Block())) {
+				guarded = true
+			}
+		})
+		if guarded {
+			continue
+		}
+		n++
+		r.add("INCLUDES", fmt.Sprintf("%s / membership table#%d", fn, n), w.Pos(mu.Pos()), Violated, "a table seeded with the line's IDs is assigned a computed verdict for every voxel of the neighbourhood box without a test of the existing entry ("+shortInstr(mu)+"): the box around the line contains voxels of the line, whose entry is overwritten, so a line voxel can drop out of the result")
+	}
+}
+
+func isMapType(t types.Type) bool {
+	_, ok := t.Underlying().(*types.Map)
+	return ok
+}
+
 // fedFromMap: some element appended to the accumulator comes out of a map iteration (the
 // keys of a set built elsewhere: what that set holds is not visible in the list).
 func fedFromMap(p *ssa.Phi) bool {
